@@ -584,7 +584,8 @@ func genWCase(r *common.Rand, tier string) wCase {
 	c.oneP = r.Chance(40)
 	n := 2 + r.Intn(6)
 	sizes := []int{0, 1, 7, 100, 200, 230, 300, 500, 1000, 1900, 2040, 3000, 4000, 5000, 40000, 70000}
-	if tier == "thorough" {
+	if tier == "thorough" && r.Chance(12) {
+		// rarely: the model works on lists of bytes, a 1 MiB frame costs it seconds
 		sizes = append(sizes, 300000, 1<<20)
 	}
 	for i := 0; i < n; i++ {
